@@ -5,8 +5,8 @@ package main
 
 import (
 	"fmt"
-	"os"
 	"go/token"
+	"os"
 	"sort"
 	"strings"
 
@@ -42,11 +42,11 @@ func (f FactT) String() string {
 }
 
 type Walker struct {
-	altMin int // callAlternatives: minimal number of returns of a callee to expand (default 2)
-	cx     *Ctx
-	ts     *Terms
-	frames int
-	over   bool
+	altMin   int // callAlternatives: minimal number of returns of a callee to expand (default 2)
+	cx       *Ctx
+	ts       *Terms
+	frames   int
+	over     bool
 	cut      int // chains truncated at maxChainDepth
 	maxDepth int
 	// Watch selects additional call instructions to report as events.
